@@ -465,6 +465,7 @@ pub proof fn lemma_nl_prefix_full(cfg: il::ControlFlowGraph, bs: Seq<&il::Block>
         /*@guards*/ forall|s: il::Scalar, h: usize, t: usize| #![trigger guard_reads(*cfg, h, t, s)]
             guard_reads(*cfg, h, t, s) && cfg.has_block(h) && !block_writes(cfg.blocks_view()[h], s) ==> r@.contains(s),
         /*@only*/ forall|s: il::Scalar| #![trigger r@.contains(s)] r@.contains(s) ==> non_local(*cfg, s),
+        /*@exact*/ forall|s: il::Scalar| #![trigger non_local(*cfg, s)] non_local(*cfg, s) ==> r@.contains(s),
 //@ loop 0
     invariant
         cfg.graph.graph_wf(),
@@ -699,6 +700,223 @@ pub proof fn lemma_phis_added_step(f0: il::Function, f1: il::Function, f2: il::F
     }
 }
 
+// ---- placement on the iterated frontier --------------------------------------------------------------
+
+/// d is in the frontier set the table `df` records for b
+pub open spec fn df_has(df: Map<usize, FxHashSet<usize>>, b: usize, d: usize) -> bool {
+    df.contains_key(b) && df[b]@.contains(d)
+}
+
+/// block k of f1 holds a phi node for `s` which f0 did not have
+pub open spec fn new_phi_for(f0: il::Function, f1: il::Function, k: usize, s: il::Scalar) -> bool {
+    let b0 = f0.control_flow_graph.graph.vertices@[k];
+    let b1 = f1.control_flow_graph.graph.vertices@[k];
+    f0.control_flow_graph.graph.vertices@.contains_key(k)
+        && exists|i: int| b0.phi_nodes@.len() <= i < b1.phi_nodes@.len() && (#[trigger] b1.phi_nodes@[i]).out == s
+}
+
+/// block b defines `s`: by an instruction, or by one of the added phi nodes
+pub open spec fn phi_src(f0: il::Function, f1: il::Function, s: il::Scalar, b: usize) -> bool {
+    mutated_at(f0.control_flow_graph, s, b) || new_phi_for(f0, f1, b, s)
+}
+
+/// ITERATED: every frontier block of a block that defines `s` (instruction or added phi node) carries a phi node for `s`
+pub open spec fn phis_closed(f0: il::Function, f1: il::Function, df: Map<usize, FxHashSet<usize>>, s: il::Scalar) -> bool {
+    forall|b: usize, d: usize| #![trigger df_has(df, b, d)] phi_src(f0, f1, s, b) && df_has(df, b, d) ==> new_phi_for(f0, f1, d, s)
+}
+
+/// ONLY THERE: an added phi node for `s` sits in a frontier block of some block that defines `s`
+pub open spec fn phis_justified(f0: il::Function, f1: il::Function, df: Map<usize, FxHashSet<usize>>, s: il::Scalar) -> bool {
+    forall|k: usize| #![trigger new_phi_for(f0, f1, k, s)] new_phi_for(f0, f1, k, s) ==> exists|b: usize| phi_src(f0, f1, s, b) && #[trigger] df_has(df, b, k)
+}
+
+pub open spec fn scalar_done(f0: il::Function, f1: il::Function, df: Map<usize, FxHashSet<usize>>, s: il::Scalar) -> bool {
+    (non_local(f0.control_flow_graph, s) ==> phis_closed(f0, f1, df, s)) && phis_justified(f0, f1, df, s)
+}
+
+/// AT MOST ONE added phi node per scalar and block
+pub open spec fn phis_unique(f0: il::Function, f1: il::Function) -> bool {
+    forall|k: usize, i: int, j: int| #![trigger f1.control_flow_graph.graph.vertices@[k].phi_nodes@[i], f1.control_flow_graph.graph.vertices@[k].phi_nodes@[j]]
+        f0.control_flow_graph.graph.vertices@.contains_key(k) && f0.control_flow_graph.graph.vertices@[k].phi_nodes@.len() <= i < j < f1.control_flow_graph.graph.vertices@[k].phi_nodes@.len()
+        ==> f1.control_flow_graph.graph.vertices@[k].phi_nodes@[i].out != f1.control_flow_graph.graph.vertices@[k].phi_nodes@[j].out
+}
+
+pub open spec fn key_listed(items: Seq<(il::Scalar, HashSet<usize>)>, n: int, s: il::Scalar) -> bool {
+    exists|i: int| 0 <= i < n && i < items.len() && (#[trigger] items[i]).0 == s
+}
+
+/// f1 and f2 carry added phi nodes for `s` in the same blocks
+pub open spec fn same_phis_for(f0: il::Function, f1: il::Function, f2: il::Function, s: il::Scalar) -> bool {
+    forall|k: usize| #![trigger new_phi_for(f0, f2, k, s)] new_phi_for(f0, f2, k, s) <==> new_phi_for(f0, f1, k, s)
+}
+
+pub proof fn lemma_same_phis_done(f0: il::Function, f1: il::Function, f2: il::Function, df: Map<usize, FxHashSet<usize>>, s: il::Scalar)
+    requires same_phis_for(f0, f1, f2, s), scalar_done(f0, f1, df, s),
+    ensures scalar_done(f0, f2, df, s),
+{
+    if non_local(f0.control_flow_graph, s) {
+        assert forall|b: usize, d: usize| #![trigger df_has(df, b, d)] phi_src(f0, f2, s, b) && df_has(df, b, d) implies new_phi_for(f0, f2, d, s) by {
+            assert(new_phi_for(f0, f2, b, s) <==> new_phi_for(f0, f1, b, s));
+            assert(phi_src(f0, f1, s, b));
+            assert(new_phi_for(f0, f1, d, s));
+            assert(new_phi_for(f0, f2, d, s) <==> new_phi_for(f0, f1, d, s));
+        }
+    }
+    assert forall|k: usize| #![trigger new_phi_for(f0, f2, k, s)] new_phi_for(f0, f2, k, s) implies exists|b: usize| phi_src(f0, f2, s, b) && #[trigger] df_has(df, b, k) by {
+        assert(new_phi_for(f0, f1, k, s));
+        let b = choose|b: usize| phi_src(f0, f1, s, b) && #[trigger] df_has(df, b, k);
+        assert(new_phi_for(f0, f2, b, s) <==> new_phi_for(f0, f1, b, s));
+        assert(phi_src(f0, f2, s, b) && df_has(df, b, k));
+    }
+}
+
+/// the effect of one more phi node `p` in block `d` on new_phi_for / phis_unique
+pub proof fn lemma_new_phi_step(f0: il::Function, f1: il::Function, f2: il::Function, entry: usize, d: usize, p: il::PhiNode)
+    requires
+        phis_added(f0, f1, entry),
+        f1.control_flow_graph.graph.vertices@.contains_key(d),
+        f2.control_flow_graph.graph.vertices@ == f1.control_flow_graph.graph.vertices@.insert(d, f2.control_flow_graph.graph.vertices@[d]),
+        f2.control_flow_graph.graph.vertices@[d].phi_nodes@ == f1.control_flow_graph.graph.vertices@[d].phi_nodes@.push(p),
+    ensures
+        forall|k: usize, s: il::Scalar| #![trigger new_phi_for(f0, f2, k, s)] new_phi_for(f0, f2, k, s) <==> (new_phi_for(f0, f1, k, s) || (k == d && s == p.out)),
+        phis_unique(f0, f1) && !new_phi_for(f0, f1, d, p.out) ==> phis_unique(f0, f2),
+{
+    let c0 = f0.control_flow_graph; let c1 = f1.control_flow_graph; let c2 = f2.control_flow_graph;
+    assert(c0.graph.vertices@.contains_key(d));
+    assert(block_extends(c0.graph.vertices@[d], c1.graph.vertices@[d]));
+    let n0 = c0.graph.vertices@[d].phi_nodes@.len() as int;
+    let n1 = c1.graph.vertices@[d].phi_nodes@.len() as int;
+    assert forall|k: usize, s: il::Scalar| #![trigger new_phi_for(f0, f2, k, s)] new_phi_for(f0, f2, k, s) <==> (new_phi_for(f0, f1, k, s) || (k == d && s == p.out)) by {
+        if k != d {
+            assert(c2.graph.vertices@[k] == c1.graph.vertices@[k]) by { if c1.graph.vertices@.contains_key(k) {} }
+            if c0.graph.vertices@.contains_key(k) { assert(c1.graph.vertices@.contains_key(k)); }
+        } else {
+            let b1 = c1.graph.vertices@[d]; let b2 = c2.graph.vertices@[d];
+            if new_phi_for(f0, f2, k, s) {
+                let i = choose|i: int| n0 <= i < b2.phi_nodes@.len() && (#[trigger] b2.phi_nodes@[i]).out == s;
+                if i < n1 { assert(b1.phi_nodes@[i] == b2.phi_nodes@[i]); assert(n0 <= i < b1.phi_nodes@.len() && b1.phi_nodes@[i].out == s); }
+                else { assert(b2.phi_nodes@[i] == p); }
+            }
+            if new_phi_for(f0, f1, k, s) {
+                let i = choose|i: int| n0 <= i < b1.phi_nodes@.len() && (#[trigger] b1.phi_nodes@[i]).out == s;
+                assert(b2.phi_nodes@[i] == b1.phi_nodes@[i]);
+                assert(n0 <= i < b2.phi_nodes@.len() && b2.phi_nodes@[i].out == s);
+            }
+            if s == p.out { assert(b2.phi_nodes@[n1] == p); assert(n0 <= n1 < b2.phi_nodes@.len() && b2.phi_nodes@[n1].out == s); }
+        }
+    }
+    if phis_unique(f0, f1) && !new_phi_for(f0, f1, d, p.out) {
+        assert forall|k: usize, i: int, j: int| #![trigger c2.graph.vertices@[k].phi_nodes@[i], c2.graph.vertices@[k].phi_nodes@[j]]
+            c0.graph.vertices@.contains_key(k) && c0.graph.vertices@[k].phi_nodes@.len() <= i < j < c2.graph.vertices@[k].phi_nodes@.len()
+            implies c2.graph.vertices@[k].phi_nodes@[i].out != c2.graph.vertices@[k].phi_nodes@[j].out by {
+            if k != d {
+                assert(c1.graph.vertices@.contains_key(k));
+                assert(c2.graph.vertices@[k] == c1.graph.vertices@[k]);
+                assert(c1.graph.vertices@[k].phi_nodes@[i].out != c1.graph.vertices@[k].phi_nodes@[j].out);
+            } else {
+                let b1 = c1.graph.vertices@[d]; let b2 = c2.graph.vertices@[d];
+                assert(b2.phi_nodes@[i] == b1.phi_nodes@[i]);
+                if j < n1 { assert(b2.phi_nodes@[j] == b1.phi_nodes@[j]); assert(b1.phi_nodes@[i].out != b1.phi_nodes@[j].out); }
+                else {
+                    assert(b2.phi_nodes@[j] == p);
+                    if b1.phi_nodes@[i].out == p.out { assert(n0 <= i < b1.phi_nodes@.len() && b1.phi_nodes@[i].out == p.out); assert(new_phi_for(f0, f1, d, p.out)); }
+                }
+            }
+        }
+    }
+}
+
+/// the state of the worklist for the scalar `s` (phi_insertions = ins, queue = q): what has been placed is justified,
+/// and every block that defines `s` and has left the queue (other than `cur`, the one being processed) has its whole frontier served
+pub open spec fn work_ok(defs: Set<usize>, ins: Set<usize>, q: Seq<usize>, cur: Option<usize>, df: Map<usize, FxHashSet<usize>>) -> bool {
+    &&& forall|b: usize, d: usize| #![trigger df_has(df, b, d)] (defs.contains(b) || ins.contains(b)) && !q.contains(b) && cur != Some(b) && df_has(df, b, d) ==> ins.contains(d)
+    &&& forall|k: usize| #![trigger ins.contains(k)] ins.contains(k) ==> exists|b: usize| (defs.contains(b) || ins.contains(b)) && #[trigger] df_has(df, b, k)
+    &&& forall|i: int| 0 <= i < q.len() ==> defs.contains(#[trigger] q[i]) || ins.contains(q[i])
+    &&& (cur matches Some(c) ==> defs.contains(c) || ins.contains(c))
+}
+
+/// popping the front of the queue makes it the block being processed
+pub proof fn lemma_work_pop(defs: Set<usize>, ins: Set<usize>, q0: Seq<usize>, q1: Seq<usize>, c: usize, df: Map<usize, FxHashSet<usize>>)
+    requires work_ok(defs, ins, q0, None, df), q0.len() > 0, q0[0] == c, q1 == q0.subrange(1, q0.len() as int),
+    ensures work_ok(defs, ins, q1, Some(c), df),
+{
+    graph::lemma_drop_first_contains(q0);
+    assert forall|b: usize, d: usize| #![trigger df_has(df, b, d)] (defs.contains(b) || ins.contains(b)) && !q1.contains(b) && Some(c) != Some(b) && df_has(df, b, d) implies ins.contains(d) by {
+        assert(q0.contains(b) <==> (b == q0[0] || q1.contains(b)));
+        assert(!q0.contains(b));
+    }
+    assert forall|i: int| 0 <= i < q1.len() implies defs.contains(#[trigger] q1[i]) || ins.contains(q1[i]) by { assert(q1[i] == q0[i + 1]); }
+    assert(defs.contains(q0[0]) || ins.contains(q0[0]));
+}
+
+/// one frontier block `d` of the block `c` being processed gets its phi node; it joins the queue unless it is a definition block
+pub proof fn lemma_work_insert(defs: Set<usize>, ins: Set<usize>, q: Seq<usize>, c: usize, d: usize, df: Map<usize, FxHashSet<usize>>)
+    requires work_ok(defs, ins, q, Some(c), df), df_has(df, c, d), !ins.contains(d),
+    ensures
+        defs.contains(d) ==> work_ok(defs, ins.insert(d), q, Some(c), df),
+        !defs.contains(d) ==> work_ok(defs, ins.insert(d), q.push(d), Some(c), df),
+{
+    let ins2 = ins.insert(d);
+    let q2 = if defs.contains(d) { q } else { q.push(d) };
+    graph::lemma_push_contains(q, d);
+    assert forall|b: usize, x: usize| #![trigger df_has(df, b, x)] (defs.contains(b) || ins2.contains(b)) && !q2.contains(b) && Some(c) != Some(b) && df_has(df, b, x) implies ins2.contains(x) by {
+        if b == d && !defs.contains(d) { assert(q.push(d).contains(d)); }
+        else {
+            if !defs.contains(d) { assert(q.push(d).contains(b) <==> (b == d || q.contains(b))); }
+            assert(defs.contains(b) || ins.contains(b));
+            assert(!q.contains(b));
+            assert(ins.contains(x));
+        }
+    }
+    assert forall|k: usize| #![trigger ins2.contains(k)] ins2.contains(k) implies exists|b: usize| (defs.contains(b) || ins2.contains(b)) && #[trigger] df_has(df, b, k) by {
+        if k == d { assert((defs.contains(c) || ins2.contains(c)) && df_has(df, c, d)); }
+        else {
+            assert(ins.contains(k));
+            let b = choose|b: usize| (defs.contains(b) || ins.contains(b)) && #[trigger] df_has(df, b, k);
+            assert((defs.contains(b) || ins2.contains(b)) && df_has(df, b, k));
+        }
+    }
+    assert forall|i: int| 0 <= i < q2.len() implies defs.contains(#[trigger] q2[i]) || ins2.contains(q2[i]) by {
+        if i < q.len() { assert(q2[i] == q[i]); assert(defs.contains(q[i]) || ins.contains(q[i])); }
+    }
+}
+
+/// the whole frontier of the block being processed is served: it is done
+pub proof fn lemma_work_done(defs: Set<usize>, ins: Set<usize>, q: Seq<usize>, c: usize, df: Map<usize, FxHashSet<usize>>)
+    requires work_ok(defs, ins, q, Some(c), df), forall|d: usize| #![trigger df_has(df, c, d)] df_has(df, c, d) ==> ins.contains(d),
+    ensures work_ok(defs, ins, q, None, df),
+{
+}
+
+/// an empty queue: the placement for `s` is closed under the frontier table and justified
+pub proof fn lemma_work_finished(f0: il::Function, f1: il::Function, defs: Set<usize>, ins: Set<usize>, df: Map<usize, FxHashSet<usize>>, s: il::Scalar)
+    requires
+        work_ok(defs, ins, Seq::<usize>::empty(), None, df),
+        forall|b: usize| #![trigger defs.contains(b)] defs.contains(b) <==> mutated_at(f0.control_flow_graph, s, b),
+        forall|k: usize| #![trigger ins.contains(k)] ins.contains(k) <==> new_phi_for(f0, f1, k, s),
+    ensures
+        phis_closed(f0, f1, df, s), phis_justified(f0, f1, df, s),
+{
+    let q = Seq::<usize>::empty();
+    assert forall|b: usize, d: usize| #![trigger df_has(df, b, d)] phi_src(f0, f1, s, b) && df_has(df, b, d) implies new_phi_for(f0, f1, d, s) by {
+        assert(defs.contains(b) || ins.contains(b));
+        assert(!q.contains(b));
+        assert(ins.contains(d));
+    }
+    assert forall|k: usize| #![trigger new_phi_for(f0, f1, k, s)] new_phi_for(f0, f1, k, s) implies exists|b: usize| phi_src(f0, f1, s, b) && #[trigger] df_has(df, b, k) by {
+        assert(ins.contains(k));
+        let b = choose|b: usize| (defs.contains(b) || ins.contains(b)) && #[trigger] df_has(df, b, k);
+        assert(phi_src(f0, f1, s, b) && df_has(df, b, k));
+    }
+}
+
+/// `dfh` is a value compute_dominance_frontiers(entry) may return for the graph `g` (unit C11 specifies that function
+/// structurally only: one entry per vertex, members are vertices reachable from the entry; its equality with the textbook
+/// dominance frontier is bounded-checked there)
+pub open spec fn frontier_table(g: graph::Graph<il::Block, il::Edge>, entry: usize, dfh: FxHashMap<usize, FxHashSet<usize>>) -> bool {
+    call_ensures(graph::Graph::<il::Block, il::Edge>::compute_dominance_frontiers, (&g, entry), Ok::<FxHashMap<usize, FxHashSet<usize>>, Error>(dfh))
+}
+
 //@ fn fn insert_phi_nodes loops=5
 //@ rewrite 1 `for (scalar, defs) in scalars_mutated_in_blocks(cfg) {` => `let vf_m = scalars_mutated_in_blocks(cfg); let vf_items = hashmap_into_items::hashmap_into_items(vf_m); for vf_item in vf_it0: vf_items { let (scalar, defs) = vf_item;` ## R-into-items: by-value iteration over a HashMap = iteration over the vector of its entries (every entry once, order unspecified) obtained through the stand-in of prelude/hashmap_into_items.rs; the tuple pattern becomes a `let`
 //@ rewrite 2 `{ continue; }` => `{ } else {` ## R-continue: `if C { continue; } REST` at the end of a loop body is `if C { } else { REST }` (part 1 of 2; Verus for-loops have no `continue`)
@@ -715,23 +933,36 @@ pub proof fn lemma_phis_added_step(f0: il::Function, f1: il::Function, f2: il::F
         /*@blocks*/ forall|k: usize| #![trigger final(function).control_flow_graph.graph.vertices@[k]] old(function).control_flow_graph.has_block(k)
             ==> block_extends(old(function).control_flow_graph.graph.vertices@[k], final(function).control_flow_graph.graph.vertices@[k]),
         /*@phi_nodes*/ old(function).control_flow_graph.entry matches Some(entry) ==> phis_added(*old(function), *final(function), entry),
+        /*@one_per_scalar*/ phis_unique(*old(function), *final(function)),
+        /*@iterated_frontier*/ old(function).control_flow_graph.entry matches Some(entry) ==> (exists|dfh: FxHashMap<usize, FxHashSet<usize>>|
+            #[trigger] frontier_table(old(function).control_flow_graph.graph, entry, dfh) && forall|s: il::Scalar| #[trigger] scalar_done(*old(function), *final(function), dfh@, s)),
         /*@wf*/ final(function).control_flow_graph.cfg_wf(),
 //@ enter
     let ghost f0 = *function;
     let ghost c0 = function.control_flow_graph;
+    proof {
+        assert forall|k: usize, s: il::Scalar| !new_phi_for(f0, f0, k, s) by {}
+    }
 //@ after 0 `let non_local_scalars = compute_non_local_scalars(cfg);`
     let ghost df = dominance_frontiers@;
     proof {
         assert(phis_added(f0, *function, entry));
+        assert(frontier_table(c0.graph, entry, dominance_frontiers));
     }
 //@ before 0 `let vf_items`
     let ghost vf_mv = vf_m@;
 //@ before 0 `for vf_item in vf_it0`
     let ghost vf_iv = vf_items@;
     proof {
-        assert forall|i: int, k: usize| #![trigger vf_iv[i].1@.contains(k)] 0 <= i < vf_iv.len() && vf_iv[i].1@.contains(k) implies mutated_at(c0, vf_iv[i].0, k) by {
+        assert forall|i: int, k: usize| #![trigger vf_iv[i].1@.contains(k)] 0 <= i < vf_iv.len() implies (vf_iv[i].1@.contains(k) <==> mutated_at(c0, vf_iv[i].0, k)) by {
             assert(vf_mv.contains_key(vf_iv[i].0) && vf_mv[vf_iv[i].0] == vf_iv[i].1);
-            assert(records(vf_mv, vf_iv[i].0, k));
+            assert(records(vf_mv, vf_iv[i].0, k) <==> mutated_at(c0, vf_iv[i].0, k));
+        }
+        assert forall|s: il::Scalar, b: usize| #![trigger mutated_at(c0, s, b)] mutated_at(c0, s, b) implies key_listed(vf_iv, vf_iv.len() as int, s) by {
+            assert(records(vf_mv, s, b));
+            assert(vf_mv.contains_key(s));
+            let i = choose|i: int| 0 <= i < vf_iv.len() && (#[trigger] vf_iv[i]).0 == s;
+            assert(0 <= i < vf_iv.len() && vf_iv[i].0 == s);
         }
     }
 //@ loop 0
@@ -739,48 +970,111 @@ pub proof fn lemma_phis_added_step(f0: il::Function, f1: il::Function, f2: il::F
         vf_it0.seq() == vf_iv,
         f0.control_flow_graph.cfg_wf(), c0 == f0.control_flow_graph, c0.entry == Some(entry),
         df == dominance_frontiers@,
+        frontier_table(c0.graph, entry, dominance_frontiers),
         df.dom() == c0.graph.vertices@.dom(),
         forall|v: usize, x: usize| #![trigger df[v]@.contains(x)] df.contains_key(v) && df[v]@.contains(x) ==> c0.graph.vertices@.contains_key(x),
-        forall|s: il::Scalar| #![trigger non_local_scalars@.contains(s)] non_local_scalars@.contains(s) ==> non_local(c0, s),
-        forall|i: int, k: usize| #![trigger vf_iv[i].1@.contains(k)] 0 <= i < vf_iv.len() && vf_iv[i].1@.contains(k) ==> mutated_at(c0, vf_iv[i].0, k),
+        forall|s: il::Scalar| #![trigger non_local_scalars@.contains(s)] non_local_scalars@.contains(s) <==> non_local(c0, s),
+        forall|i: int, k: usize| #![trigger vf_iv[i].1@.contains(k)] 0 <= i < vf_iv.len() ==> (vf_iv[i].1@.contains(k) <==> mutated_at(c0, vf_iv[i].0, k)),
+        forall|s: il::Scalar, b: usize| #![trigger mutated_at(c0, s, b)] mutated_at(c0, s, b) ==> key_listed(vf_iv, vf_iv.len() as int, s),
+        forall|i: int, j: int| 0 <= i < j < vf_iv.len() ==> (#[trigger] vf_iv[i]).0 != (#[trigger] vf_iv[j]).0,
         phis_added(f0, *function, entry),
+        phis_unique(f0, *function),
+        forall|k: usize, s: il::Scalar| #![trigger new_phi_for(f0, *function, k, s)] new_phi_for(f0, *function, k, s) ==> key_listed(vf_iv, vf_it0.index@ as int, s),
+        forall|i: int| 0 <= i < vf_it0.index@ ==> scalar_done(f0, *function, df, (#[trigger] vf_iv[i]).0),
 //@ before 0 `if !non_local_scalars.contains(&scalar)`
+    let ghost vf_n = vf_it0.index@ as int;
+    let ghost fs = *function;
     proof {
-        assert(vf_item == vf_iv[vf_it0.index@ as int]);
-        assert forall|k: usize| #![trigger defs@.contains(k)] defs@.contains(k) implies mutated_at(c0, scalar, k) by {
-            assert(vf_iv[vf_it0.index@ as int].1@.contains(k));
+        assert(vf_item == vf_iv[vf_n]);
+        assert forall|k: usize| #![trigger defs@.contains(k)] defs@.contains(k) <==> mutated_at(c0, scalar, k) by {
+            assert(vf_iv[vf_n].1@.contains(k) <==> mutated_at(c0, vf_iv[vf_n].0, k));
+        }
+        assert forall|s: il::Scalar| #![trigger key_listed(vf_iv, vf_n + 1, s)] key_listed(vf_iv, vf_n, s) implies key_listed(vf_iv, vf_n + 1, s) by {
+            let i = choose|i: int| 0 <= i < vf_n && i < vf_iv.len() && (#[trigger] vf_iv[i]).0 == s;
+            assert(0 <= i < vf_n + 1 && i < vf_iv.len() && vf_iv[i].0 == s);
+        }
+        assert(key_listed(vf_iv, vf_n + 1, scalar)) by { assert(0 <= vf_n < vf_n + 1 && vf_n < vf_iv.len() && vf_iv[vf_n].0 == scalar); }
+        // no phi node for this scalar yet: the scalars handled so far are other keys of the table
+        assert forall|k: usize| #![trigger new_phi_for(f0, fs, k, scalar)] !new_phi_for(f0, fs, k, scalar) by {
+            if new_phi_for(f0, fs, k, scalar) {
+                let i = choose|i: int| 0 <= i < vf_n && i < vf_iv.len() && (#[trigger] vf_iv[i]).0 == scalar;
+                assert(vf_iv[i].0 != vf_iv[vf_n].0);
+            }
+        }
+        // a local scalar is done as it is: no phi nodes required, none placed
+        if !non_local(c0, scalar) { assert(scalar_done(f0, fs, df, scalar)); }
+    }
+//@ before 0 `for vf_x in vf_it1`
+    proof {
+        if defs@.len() == 0 {
+            assert forall|b: usize| !defs@.contains(b) by { if defs@.contains(b) { vstd::set_lib::lemma_set_empty_equivalency_len(defs@); } }
         }
     }
 //@ loop 1
     invariant
         graph::seq_lists_set_ref(vf_it1.seq(), defs@),
         forall|i: int| 0 <= i < vf_q@.len() ==> defs@.contains(#[trigger] vf_q@[i]),
+        forall|j: int| 0 <= j < vf_it1.index@ ==> vf_q@.contains(*(#[trigger] vf_it1.seq()[j])),
+        vf_it1.index@ == vf_it1.seq().len() ==> (forall|b: usize| #![trigger defs@.contains(b)] defs@.contains(b) ==> vf_q@.contains(b)),
 //@ before 0 `vf_q.push_back(*vf_x);`
+    let ghost vf_qb = vf_q@;
+    let ghost vf_j1 = vf_it1.index@ as int;
     proof { graph::lemma_seq_lists_set_ref(vf_it1.seq(), defs@); }
+//@ after 0 `vf_q.push_back(*vf_x);`
+    proof {
+        graph::lemma_push_contains(vf_qb, *vf_x);
+        assert(vf_q@ =~= vf_qb.push(*vf_x));
+        assert forall|j: int| 0 <= j < vf_j1 + 1 implies vf_q@.contains(*(#[trigger] vf_it1.seq()[j])) by {
+            if j < vf_j1 { assert(vf_qb.contains(*vf_it1.seq()[j])); }
+        }
+        assert(vf_j1 + 1 == vf_it1.seq().len() ==> (forall|b: usize| #![trigger defs@.contains(b)] defs@.contains(b) ==> vf_q@.contains(b))) by {
+            if vf_j1 + 1 == vf_it1.seq().len() {
+                assert forall|b: usize| #![trigger defs@.contains(b)] defs@.contains(b) implies vf_q@.contains(b) by {
+                    let j = choose|j: int| 0 <= j < vf_it1.seq().len() && *(#[trigger] vf_it1.seq()[j]) == b;
+                    assert(vf_q@.contains(*vf_it1.seq()[j]));
+                }
+            }
+        }
+    }
 //@ before 0 `while let Some(block_index)`
+    let ghost mut gq: Seq<usize> = queue@;
     proof {
         vstd::set_lib::lemma_len_subset(phi_insertions@, c0.graph.vertices@.dom());
         if queue@.len() > 0 { assert(defs@.contains(queue@[0])); assert(mutated_at(c0, scalar, queue@[0])); }
+        assert(work_ok(defs@, phi_insertions@, queue@, None, df));
     }
 //@ loop 2
     invariant
+        gq == queue@,
         f0.control_flow_graph.cfg_wf(), c0 == f0.control_flow_graph, c0.entry == Some(entry),
         df == dominance_frontiers@,
         df.dom() == c0.graph.vertices@.dom(),
         forall|v: usize, x: usize| #![trigger df[v]@.contains(x)] df.contains_key(v) && df[v]@.contains(x) ==> c0.graph.vertices@.contains_key(x),
         non_local(c0, scalar),
-        forall|k: usize| #![trigger defs@.contains(k)] defs@.contains(k) ==> mutated_at(c0, scalar, k),
+        forall|k: usize| #![trigger defs@.contains(k)] defs@.contains(k) <==> mutated_at(c0, scalar, k),
         queue@.len() > 0 ==> (exists|b: usize| #[trigger] mutated_at(c0, scalar, b)),
         forall|i: int| 0 <= i < queue@.len() ==> c0.graph.vertices@.contains_key(#[trigger] queue@[i]),
         phi_insertions@.subset_of(c0.graph.vertices@.dom()),
         phi_insertions@.len() <= c0.graph.vertices@.dom().len(),
         phis_added(f0, *function, entry),
+        phis_unique(f0, *function),
+        forall|k: usize| #![trigger phi_insertions@.contains(k)] phi_insertions@.contains(k) <==> new_phi_for(f0, *function, k, scalar),
+        forall|k: usize, s2: il::Scalar| #![trigger new_phi_for(f0, *function, k, s2)] s2 != scalar ==> (new_phi_for(f0, *function, k, s2) <==> new_phi_for(f0, fs, k, s2)),
+        work_ok(defs@, phi_insertions@, queue@, None, df),
+    ensures queue@.len() == 0,
     decreases c0.graph.vertices@.dom().len() - phi_insertions@.len() + queue@.len(),
 //@ before 0 `for df_index in vf_it3`
     let ghost vf_q0 = queue@;
     let ghost vf_p0 = phi_insertions@;
     proof {
+        assert(gq =~= seq![block_index] + vf_q0);
+        assert(gq[0] == block_index);
+        assert(gq.subrange(1, gq.len() as int) =~= vf_q0);
+        lemma_work_pop(defs@, phi_insertions@, gq, vf_q0, block_index, df);
         assert(c0.graph.vertices@.contains_key(block_index));
+        if df[block_index]@.len() == 0 {
+            assert forall|d: usize| !df[block_index]@.contains(d) by { if df[block_index]@.contains(d) { vstd::set_lib::lemma_set_empty_equivalency_len(df[block_index]@); } }
+        }
     }
 //@ loop 3
     invariant
@@ -797,11 +1091,21 @@ pub proof fn lemma_phis_added_step(f0: il::Function, f1: il::Function, f2: il::F
         phi_insertions@.len() <= c0.graph.vertices@.dom().len(),
         c0.graph.vertices@.dom().len() - phi_insertions@.len() + queue@.len() <= c0.graph.vertices@.dom().len() - vf_p0.len() + vf_q0.len(),
         phis_added(f0, *function, entry),
+        phis_unique(f0, *function),
+        forall|k: usize| #![trigger phi_insertions@.contains(k)] phi_insertions@.contains(k) <==> new_phi_for(f0, *function, k, scalar),
+        forall|k: usize, s2: il::Scalar| #![trigger new_phi_for(f0, *function, k, s2)] s2 != scalar ==> (new_phi_for(f0, *function, k, s2) <==> new_phi_for(f0, fs, k, s2)),
+        work_ok(defs@, phi_insertions@, queue@, Some(block_index), df),
+        forall|j: int| 0 <= j < vf_it3.index@ ==> phi_insertions@.contains(*(#[trigger] vf_it3.seq()[j])),
+        vf_it3.index@ == vf_it3.seq().len() ==> (forall|d: usize| #![trigger df_has(df, block_index, d)] df_has(df, block_index, d) ==> phi_insertions@.contains(d)),
 //@ before 0 `if phi_insertions.contains(df_index)`
     let ghost f1 = *function;
+    let ghost vf_j3 = vf_it3.index@ as int;
+    let ghost vf_ins1 = phi_insertions@;
+    let ghost vf_q1 = queue@;
     proof {
         graph::lemma_seq_lists_set_ref(vf_it3.seq(), df[block_index]@);
         assert(df[block_index]@.contains(*df_index));
+        assert(df_has(df, block_index, *df_index));
         assert(c0.graph.vertices@.contains_key(*df_index));
         lemma_phis_added_wf(f0, f1, entry);
     }
@@ -816,7 +1120,7 @@ pub proof fn lemma_phis_added_step(f0: il::Function, f1: il::Function, f2: il::F
 //@ before 0 `if *df_index == entry`
     proof {
         assert(phi_node.incoming@.dom() =~= c0.graph.predecessors@[*df_index]@) by {
-            assert forall|q: usize| phi_node.incoming@.dom().contains(q) <==> c0.graph.predecessors@[*df_index]@.contains(q) by {
+            assert forall|q: usize| #![trigger phi_node.incoming@.dom().contains(q)] phi_node.incoming@.dom().contains(q) <==> c0.graph.predecessors@[*df_index]@.contains(q) by {
                 if c0.graph.predecessors@[*df_index]@.contains(q) { assert(vf_ps.to_set().contains(q)); assert(vf_ps.contains(q)); }
                 if phi_node.incoming@.contains_key(q) { let j = choose|j: int| 0 <= j < vf_ps.len() && #[trigger] vf_ps[j] == q; assert(vf_ps.contains(q)); assert(vf_ps.to_set().contains(q)); }
             }
@@ -829,13 +1133,61 @@ pub proof fn lemma_phis_added_step(f0: il::Function, f1: il::Function, f2: il::F
 //@ after 0 `df_block.add_phi_node(phi_node);`
     proof {
         lemma_phis_added_step(f0, f1, *function, entry, *df_index, phi_node);
+        lemma_new_phi_step(f0, f1, *function, entry, *df_index, phi_node);
+        assert(!new_phi_for(f0, f1, *df_index, scalar));
     }
 //@ after 0 `phi_insertions.insert(*df_index);`
     proof {
         vstd::set_lib::lemma_len_subset(phi_insertions@, c0.graph.vertices@.dom());
+        lemma_work_insert(defs@, vf_ins1, vf_q1, block_index, *df_index, df);
+        assert(phi_insertions@ =~= vf_ins1.insert(*df_index));
+    }
+//@ after 0 `queue.push_back(*df_index); } }`
+    proof {
+        // all frontier blocks listed so far are served; at the last one the whole frontier is
+        assert forall|j: int| 0 <= j < vf_j3 + 1 implies phi_insertions@.contains(*(#[trigger] vf_it3.seq()[j])) by {
+            if j < vf_j3 { assert(vf_ins1.contains(*vf_it3.seq()[j])); }
+        }
+        assert(vf_j3 + 1 == vf_it3.seq().len() ==> (forall|d: usize| #![trigger df_has(df, block_index, d)] df_has(df, block_index, d) ==> phi_insertions@.contains(d))) by {
+            if vf_j3 + 1 == vf_it3.seq().len() {
+                assert forall|d: usize| #![trigger df_has(df, block_index, d)] df_has(df, block_index, d) implies phi_insertions@.contains(d) by {
+                    let j = choose|j: int| 0 <= j < vf_it3.seq().len() && *(#[trigger] vf_it3.seq()[j]) == d;
+                    assert(phi_insertions@.contains(*vf_it3.seq()[j]));
+                }
+            }
+        }
+    }
+//@ after 0 `queue.push_back(*df_index); } } }`
+    proof {
+        lemma_work_done(defs@, phi_insertions@, queue@, block_index, df);
+        gq = queue@;
+    }
+//@ after 0 `queue.push_back(*df_index); } } } }`
+    proof {
+        assert(queue@ =~= Seq::<usize>::empty());
+        lemma_work_finished(f0, *function, defs@, phi_insertions@, df, scalar);
+        assert(scalar_done(f0, *function, df, scalar));
+        assert forall|i: int| 0 <= i < vf_n implies scalar_done(f0, *function, df, (#[trigger] vf_iv[i]).0) by {
+            assert(vf_iv[i].0 != vf_iv[vf_n].0);
+            assert(same_phis_for(f0, fs, *function, vf_iv[i].0));
+            lemma_same_phis_done(f0, fs, *function, df, vf_iv[i].0);
+        }
+        assert forall|k: usize, s: il::Scalar| #![trigger new_phi_for(f0, *function, k, s)] new_phi_for(f0, *function, k, s) implies key_listed(vf_iv, vf_n + 1, s) by {
+            if s != scalar { assert(new_phi_for(f0, fs, k, s)); assert(key_listed(vf_iv, vf_n, s)); }
+        }
     }
 //@ before 0 `Ok(()) }`
     proof {
         lemma_phis_added_wf(f0, *function, entry);
+        assert forall|s: il::Scalar| #[trigger] scalar_done(f0, *function, df, s) by {
+            if key_listed(vf_iv, vf_iv.len() as int, s) {
+                let i = choose|i: int| 0 <= i < vf_iv.len() && (#[trigger] vf_iv[i]).0 == s;
+                assert(scalar_done(f0, *function, df, vf_iv[i].0));
+            } else {
+                assert forall|k: usize| #![trigger new_phi_for(f0, *function, k, s)] !new_phi_for(f0, *function, k, s) by {}
+                assert forall|b: usize| #![trigger mutated_at(c0, s, b)] !mutated_at(c0, s, b) by {}
+            }
+        }
+        assert(frontier_table(c0.graph, entry, dominance_frontiers) && forall|s: il::Scalar| #[trigger] scalar_done(f0, *function, dominance_frontiers@, s));
     }
 //@ end
